@@ -466,10 +466,11 @@ func (g *genCtx) msgIDList(prefer []imap.InternalMessageID, unknownPct int, allo
 	for i := 0; i < n; i++ {
 		var id imap.InternalMessageID
 
+		// (a draw that shrinks to 0 gives k = 0; the rare branch sits at the high end)
 		switch k := g.intn("elem", 100); {
-		case k < unknownPct:
+		case k >= 100-unknownPct:
 			id = g.msgID(0)
-		case k < unknownPct+82 && len(prefer) > 0:
+		case k < 82 && len(prefer) > 0:
 			id = pick(g, "pref", prefer)
 		default:
 			if len(g.m.msgOrder) == 0 {
